@@ -663,9 +663,60 @@ class Emitter:
             self.fn_ids[name] = self.FN_BASE + 16 * k
             k += 1
 
+    COLD_BASE = 0x40000000  # tag strings used only by vp_assert/vp_reach live here and are never materialised
+
+    def find_cold(self):
+        """byte-array constants referenced only from vp_assert / vp_reach calls."""
+        cand = {g.name for g in self.mod.order if g.init is not None and g.init.k == 'bytes' and g.const}
+        if not cand:
+            return set()
+        uses = {n: [0, 0] for n in cand}
+        rx = re.compile(r'@(?:"[^"]*"|[-\w.$]+)')
+        for f in self.mod.funcs.values():
+            for (_, instrs) in f.blocks:
+                for ins in instrs:
+                    if '@' not in ins:
+                        continue
+                    tagcall = ('@vp_assert(' in ins) or ('@vp_reach(' in ins)
+                    for m in rx.finditer(ins):
+                        n = m.group(0)
+                        if n in uses:
+                            uses[n][0 if tagcall else 1] += 1
+        for g in self.mod.order:  # referenced from another global's initialiser -> not cold
+            if g.init is not None:
+                self._walk_globals(g.init, uses)
+        return {n for n, (a, b) in uses.items() if a > 0 and b == 0}
+
+    def _walk_globals(self, c, uses):
+        if c.k == 'global' and c.v in uses:
+            uses[c.v][1] += 1
+        elif c.k == 'cast':
+            self._walk_globals(c.v[1], uses)
+        elif c.k == 'gep':
+            self._walk_globals(c.v[1], uses)
+        elif c.k == 'agg':
+            for e in c.v:
+                self._walk_globals(e, uses)
+        elif c.k == 'bin':
+            self._walk_globals(c.v[1], uses); self._walk_globals(c.v[2], uses)
+
     def layout_globals(self):
         addr = self.GLOBAL_BASE
+        cold = self.find_cold()
         for g in self.mod.order:
+            if cid(g.name).startswith('_ZTV') and not g.external:
+                cold.add(g.name)  # vtables: only their address is used (virtual calls are resolved from the vptr value)
+        caddr = self.COLD_BASE
+        for g in self.mod.order:
+            if g.name in cold:
+                g.addr = caddr
+                g.size = self.mod.sizeof(g.ty)
+                g.cold = True
+                caddr += (g.size + 7) // 8 * 8
+        for g in self.mod.order:
+            if g.name in cold:
+                continue
+            g.cold = False
             sz = self.mod.sizeof(g.ty) if not g.external else 8
             al = max(g.align, self.mod.alignof(g.ty) if not g.external else 8, 8)
             addr = (addr + al - 1) // al * al
@@ -778,15 +829,19 @@ class Emitter:
     def scan_vtables(self):
         """slot -> functions stored at that virtual slot in any vtable (address point = index 2 with Itanium ABI)."""
         self.vtable_funcs = set()
+        self.vtables = []  # (address point, [function name or None per slot])
         for g in self.mod.order:
             nm = cid(g.name)
             if not nm.startswith('_ZTV') or g.init is None:
                 continue
             # { [N x i8*] } possibly several arrays (multiple inheritance)
             arrays = g.init.v if g.init.k == 'agg' else []
-            for arr in arrays:
+            gt = self.mod.resolve(g.ty)
+            offs = self.mod.struct_layout(gt)[0] if gt.k == 'struct' else [0] * len(arrays)
+            for aj, arr in enumerate(arrays):
                 if arr.k != 'agg':
                     continue
+                self.vtables.append((g.addr + offs[aj] + 16, [self.const_fn_name(e) for e in arr.v[2:]], g.name))
                 # find address points: entries after (offset-to-top, typeinfo) pairs. Single inheritance: index 2.
                 for j, e in enumerate(arr.v):
                     fn = self.const_fn_name(e)
@@ -940,13 +995,81 @@ class Emitter:
                 out.append('%s %s(%s);' % (self.ctype(ret), nm, ps))
         return out
 
+    def ladder_targets(self):
+        """addresses of harness objects registered for pointer concretisation: globals whose name contains 'vp_obj'."""
+        return [g.addr for g in self.mod.order if 'vp_obj' in g.name]
+
     def emit_dispatchers(self):
         out = []
         taken = self.addr_taken()
-        for key, (nm, ret, argtys, slot) in self.dispatch.items():
+        pending = list(self.dispatch.items())
+        done = set()
+        while pending:
+            key, val = pending.pop(0)
+            if key in done:
+                continue
+            done.add(key)
+            self._emit_one_dispatcher(key, val, out, taken)
+            for k2, v2 in list(self.dispatch.items()):
+                if k2 not in done and (k2, v2) not in pending:
+                    pending.append((k2, v2))
+        return '\n'.join(out)
+
+    def _emit_one_dispatcher(self, key, val, out, taken):
+        (nm, ret, argtys, slot) = val
+        if True:
             sig = key[0]
             ps = ', '.join(['uint64_t fn'] + ['%s a%d' % (self.ctype(a), j) for j, a in enumerate(argtys)])
             out.append('%s %s(%s) {' % (self.ctype(ret), nm, ps))
+            rt = self.ctype(ret)
+            args = ', '.join('a%d' % j for j in range(len(argtys)))
+            if isinstance(slot, tuple) and slot[0] == 'o':
+                inner = self.dispatcher(ret, argtys, ('v', slot[1]))
+                call = lambda obj: '%s(%s)' % (inner, ', '.join(['vp_ld(%s, 8)' % obj, obj] + ['a%d' % j for j in range(1, len(argtys))]))
+                lad = self.ladder_targets()
+                for a in lad:
+                    out.append(('  if (a0 == %dUL) { %s; return; }' if rt == 'void' else '  if (a0 == %dUL) { return %s; }') % (a, call('%dUL' % a)))
+                if lad:
+                    out.append('  VP_FAIL("VP-BOUND: virtual call on an object outside the registered vp_obj ladder");')
+                    if rt != 'void':
+                        out.append('  { %s z = {0}; return z; }' % rt if (rt.startswith('struct') or rt == 'vp_u128') else '  return 0;')
+                elif rt == 'void':
+                    out.append('  %s;' % call('a0'))
+                else:
+                    out.append('  return %s;' % call('a0'))
+                out.append('}')
+                return
+            if isinstance(slot, tuple):
+                # dispatch on the vtable pointer value: no load from the vtable, candidates = vtables whose slot matches
+                n = 0
+                byfn = {}
+                for (ap, fns, gname) in self.vtables:
+                    k = slot[1]
+                    if k >= len(fns) or fns[k] is None:
+                        continue
+                    fn = fns[k]
+                    f = self.mod.funcs[fn]
+                    try:
+                        fsig = self.sig_key(f.ret, [p[0] for p in f.params])
+                    except Unsupported:
+                        continue
+                    if fsig != sig or f.vararg:
+                        continue
+                    byfn.setdefault(fn, []).append(ap)
+                for fn in sorted(byfn):
+                    cond = ' || '.join('fn == %dUL' % ap for ap in byfn[fn])
+                    if cid(fn) == '__cxa_pure_virtual':
+                        out.append('  if (%s) { VP_FAIL("pure virtual call"); }' % cond)
+                        continue
+                    self.extern_used.setdefault(fn, True)
+                    call = '%s(%s)' % (self.fname(fn), args)
+                    out.append(('  if (%s) { %s; return; }' if rt == 'void' else '  if (%s) { return %s; }') % (cond, call))
+                    n += 1
+                out.append('  VP_FAIL("virtual call through an unknown vtable pointer (%s, slot %s)");' % (sig, slot[1]))
+                if rt != 'void':
+                    out.append('  { %s z = {0}; return z; }' % rt if (rt.startswith('struct') or rt == 'vp_u128') else '  return 0;')
+                out.append('}')
+                return
             cands = []
             pool = taken if slot is None else (self.vtable_slots.get(slot, set()))
             for fn in sorted(pool):
@@ -959,8 +1082,6 @@ class Emitter:
                     continue
                 if fsig == sig:
                     cands.append(fn)
-            rt = self.ctype(ret)
-            args = ', '.join('a%d' % j for j in range(len(argtys)))
             for fn in cands:
                 if cid(fn) == '__cxa_pure_virtual':
                     continue
@@ -977,20 +1098,19 @@ class Emitter:
                 else:
                     out.append('  return 0;')
             out.append('}')
-        return '\n'.join(out)
 
     # ---- init image
     def emit_init(self):
         size = self.globals_end
         buf = bytearray(size)
         for g in self.mod.order:
-            if g.init is not None:
+            if g.init is not None and not g.cold:
                 self.const_bytes(g.init, g.ty, buf, g.addr)
         out = ['const uint64_t vp_globals_end = %dUL;' % size, 'void vp_init_globals(void) {']
         for w in range(0, size, 8):
             v = int.from_bytes(buf[w:w + 8], 'little')
             if v:
-                out.append('  VP_MEM[%d] = %dUL;' % (w // 8, v))
+                out.append('  vp_initw(%d, %dUL);' % (w // 8, v))
         out.append('}')
         ctors = self.mod.globals.get('@llvm.global_ctors')
         out.append('void vp_run_ctors(void) {')
@@ -1387,8 +1507,8 @@ class FuncEmitter:
             a = self.parse_value(c, ty)
             c.expect(',')
             b = self.parse_value(c, ty)
-            sym = {'fadd': '+', 'fsub': '-', 'fmul': '*', 'fdiv': '/'}[op]
-            assign('(%s) %s (%s)' % (a, sym, b))
+            bits = 32 if self.mod.resolve(ty).k == 'float' else 64
+            assign('VP_F%s%d(%s, %s)' % (op[1:].upper(), bits, a, b))
             return
         if op == 'fneg':
             ty = parse_type(c)
@@ -1555,6 +1675,14 @@ class FuncEmitter:
             self.has_alloca = True
             assign('vp_alloca((uint64_t)%d * (uint64_t)(%s), %d)' % (self.mod.sizeof(ty), count, align), PTR)
             return
+        if op == 'load' and dst and self.vslot_of(dst) is not None and self.only_callee_use(dst):
+            return  # function pointer fetched from a vtable slot: resolved from the vptr value by the dispatcher instead
+        if op == 'load' and dst and self.is_suppressed_vptr_load(dst):
+            return  # vptr load feeding only an obj-mode virtual call: done inside the dispatcher
+        if op == 'getelementptr' and dst and self.use_count(dst) == 2 and any(
+                d.startswith('load ') and self.vslot_of(n) is not None and self.only_callee_use(n) and
+                re.search(r'\*\s*' + re.escape(dst) + r'\s*(,|$)', d) for n, d in self.defs.items()):
+            return  # vtable slot address: unused once the function pointer load is gone
         if op == 'load':
             atomic = c.accept('atomic')
             c.accept('volatile')
@@ -1901,9 +2029,18 @@ class FuncEmitter:
                     expr = '%s(%s)' % (em.fname(callee), ', '.join(cargs))
                     stmt = ('%s;' % expr) if (void or D is None) else ('%s = %s;' % (D, expr))
         else:
-            slot = self.vslot_of(callee_local)
-            dn = em.dispatcher(rty, argtys, slot)
-            expr = '%s(%s)' % (dn, ', '.join([callee_expr] + args))
+            vs = self.vslot_of(callee_local)
+            if vs is not None and self.only_callee_use(callee_local) and self.vobj_of(vs[1]) is not None \
+                    and args and args[0] == self.lname(self.vobj_of(vs[1])):
+                # obj mode: the dispatcher loads the vptr from `this` itself (after concretising `this` on the ladder)
+                dn = em.dispatcher(rty, argtys, ('o', vs[0]))
+                expr = '%s(%s)' % (dn, ', '.join(['0'] + args))
+            elif vs is not None and self.only_callee_use(callee_local):
+                dn = em.dispatcher(rty, argtys, ('v', vs[0]))
+                expr = '%s(%s)' % (dn, ', '.join([self.lname(vs[1])] + args))
+            else:
+                dn = em.dispatcher(rty, argtys, vs[0] if vs else None)
+                expr = '%s(%s)' % (dn, ', '.join([callee_expr] + args))
             stmt = ('%s;' % expr) if (void or D is None) else ('%s = %s;' % (D, expr))
         if stmt:
             body.append('  ' + stmt)
@@ -1940,18 +2077,73 @@ class FuncEmitter:
             vt = mm.group(1)
             slot = int(mm.group(2))
         elif pd.startswith('load '):
-            vt = p
-            slot = 0
-            pd2 = pd
-            if 'vtable pointer' in pd or True:
-                # %p itself is the vptr load
-                return 0 if self.is_vptr_load(pd) else None
+            # %p itself is the vptr load
+            return (0, p) if self.is_vptr_load(pd) else None
         else:
             return None
         vd = self.defs.get(vt)
         if vd and self.is_vptr_load(vd):
-            return slot
+            return (slot, vt)
         return None
+
+    def use_count(self, local):
+        self.only_callee_use('%__none__')
+        return self._usecount.get(local, 0)
+
+    def vobj_of(self, vptr_local):
+        """%vptr = load F**, F*** %x with %x = bitcast %obj (or %obj itself); returns %obj if the vptr feeds only the slot
+        computation, else None."""
+        d = self.defs.get(vptr_local)
+        if not d or self.use_count(vptr_local) != 2:
+            return None
+        m = re.search(r'\*\*\*\s*(%(?:"[^"]*"|[-\w.$]+))', d)
+        if not m:
+            return None
+        x = m.group(1)
+        xd = self.defs.get(x)
+        if xd and xd.startswith('bitcast '):
+            mm = re.match(r'bitcast \S.*?(%(?:"[^"]*"|[-\w.$]+)) to ', xd)
+            if mm:
+                return mm.group(1)
+            return None
+        return x
+
+    def is_suppressed_vptr_load(self, dst):
+        """vptr load that only feeds an obj-mode virtual call."""
+        if not self.is_vptr_load(self.defs.get(dst, '')) or self.vobj_of(dst) is None:
+            return False
+        # find the function pointer load that uses it and the call that uses that
+        for name, d in self.defs.items():
+            if d.startswith('load ') and self.vslot_of(name) is not None and self.vslot_of(name)[1] == dst:
+                if not self.only_callee_use(name):
+                    return False
+                rx = re.compile(r'(call|invoke)\b[^@]*?' + re.escape(name) + r'\(\s*(.*)$')
+                for (_, instrs) in self.f.blocks:
+                    for ins in instrs:
+                        m = rx.search(ins)
+                        if m:
+                            # first argument must be the object
+                            am = re.search(r'(%(?:"[^"]*"|[-\w.$]+))\s*(,|\))', m.group(2))
+                            return bool(am) and am.group(1) == self.vobj_of(dst)
+        return False
+
+    def only_callee_use(self, local):
+        """True if %local is used exactly once in the function, as the callee of a call/invoke."""
+        if not hasattr(self, '_usecount'):
+            self._usecount = {}
+            rx = re.compile(r'%(?:"[^"]*"|[-\w.$]+)')
+            for (_, instrs) in self.f.blocks:
+                for ins in instrs:
+                    for m in rx.finditer(ins):
+                        self._usecount[m.group(0)] = self._usecount.get(m.group(0), 0) + 1
+        if self._usecount.get(local, 0) != 2:  # definition + one use
+            return False
+        rx = re.compile(r'(call|invoke)\b[^@]*?' + re.escape(local) + r'\(')
+        for (_, instrs) in self.f.blocks:
+            for ins in instrs:
+                if rx.search(ins):
+                    return True
+        return False
 
     def is_vptr_load(self, d):
         # a load whose result type is a pointer to pointer to function: "load RET (ARGS)**, RET (ARGS)*** %x"
